@@ -54,6 +54,7 @@ func toRegexString(pattern string) string {
 	pattern = strings.ReplaceAll(pattern, "*", "[^/]*")       // handle single (all) * components
 	pattern = strings.ReplaceAll(pattern, "[^/]*[^/]*", ".*") // handle ** components
 	pattern = strings.ReplaceAll(pattern, "/.*/", "/(.*/)?")  // Allow ** to match zero directories
+	pattern = strings.ReplaceAll(pattern, "^.*/", "^(.*/)?")  // ... also at the very start (package at the repo root)
 	return pattern
 }
 
